@@ -9,8 +9,8 @@ open GM GM.Text GM.Spec GM.Proof.Reader
 
 /-- the parsers that can be tried on any line of `src` are covered -/
 structure TrigOK (src : Bytes) (al : BP → Bool) : Prop where
-  free : ∀ bp ∈ freeParsers, al bp = true ∨ bp.notList = false
-  trig : ∀ c ∈ src, ∀ bp ∈ (triggered c).getD freeParsers, al bp = true ∨ bp.notList = false
+  free : ∀ bp ∈ freeParsers, al bp = true ∨ (bp.notList = false ∧ al .list = false ∧ NoItem src)
+  trig : ∀ c ∈ src, ∀ bp ∈ (triggered c).getD freeParsers, al bp = true ∨ (bp.notList = false ∧ al .list = false ∧ NoItem src)
 
 /-! ### the retry measure: B's is A's plus a constant of the line -/
 
@@ -119,15 +119,16 @@ def obJp (b c : Bool) (f q : Nat) (w : Int) (r : OpenResult) (l : Option Block) 
 
 /-- what the induction on the retry fuel provides -/
 def LoopIH (src : Bytes) (al : BP → Bool) (bA bB cont : Bool) (fA fB : Nat) : Prop :=
+  (FL src → bB = bA) →
   ∀ (q : Nat) (result resultB : OpenResult) (lbA lbB : Option Block) {k ls p : Nat} {sA sB : St},
     DRL src al k ls p sA sB → LRw al lbA lbB → RRes cont result resultB → HC cont result lbA sA →
     S2 (fun a b sA' sB' => RRes cont a b ∧ (resultB = result → b = a) ∧ (∃ p', DR src al k ls p' sA' sB') ∧
         OLU src ls p cont result a)
       (openBlocksLoop bA cont fA q result lbA sA) (openBlocksLoop bB cont fB (q + 1) resultB lbB sB)
 
-theorem obJp_sim {src al} (ps : PS src al) (fr : Frames al) (ot : OT src) (ns : NS src) (bA bB cont : Bool) {fA fB : Nat}
+theorem obJp_sim {src al} (ps : PS src al) (fr : Frames al) (ot : OT src) (ns : NS src) (bA bB cont : Bool) (hb : FL src → bB = bA) {fA fB : Nat}
     (ih : LoopIH src al bA bB cont fA fB) (q : Nat) (w : Int) (result resultB : OpenResult) {lbA lbB : Option Block}
-    (hl : LRw al lbA lbB) (bps : List BP) (hbps : ∀ bp ∈ bps, al bp = true ∨ bp.notList = false) {k ls p} {sA sB : St}
+    (hl : LRw al lbA lbB) (bps : List BP) (hbps : ∀ bp ∈ bps, al bp = true ∨ (bp.notList = false ∧ al .list = false ∧ NoItem src)) {k ls p} {sA sB : St}
     (h : DR src al k ls p sA sB) (hres : RRes cont result resultB) (hcl : HC cont result lbA sA)
     (hm1 : w ≤ 3 → BP.paragraph ∈ bps)
     (hm2 : 3 < w → BP.code ∈ bps ∧ ∃ lo : Int, w = (indentWidthI ((viewA src ls p).getD []) lo).1) :
@@ -138,7 +139,7 @@ theorem obJp_sim {src al} (ps : PS src al) (fr : Frames al) (ot : OT src) (ns : 
   refine S2.bind (get_s2 h) (fun stA stB sA1 sB1 hq => ?_)
   obtain ⟨e1, e2, e3, e4⟩ := hq
   rw [e1, e2, e3, e4]
-  refine S2.bind (tryParsers_sim ps fr ot bA bB cont w q bps hbps result resultB lbA lbB h hl hres hcl) (fun a b sA2 sB2 hq => ?_)
+  refine S2.bind (tryParsers_sim ps fr ot bA bB cont hb w q bps hbps result resultB lbA lbB h hl hres hcl) (fun a b sA2 sB2 hq => ?_)
   obtain ⟨⟨hout, hr, hl2, hnew⟩, heq, ⟨p', h2⟩, hu, hcl2⟩ := hq
   obtain ⟨oA, rA, lA⟩ := a
   obtain ⟨oB, rB, lB⟩ := b
@@ -160,7 +161,7 @@ theorem obJp_sim {src al} (ps : PS src al) (fr : Frames al) (ot : OT src) (ns : 
         exact S2.errL (throw_bind_err _ _ _)
       · rw [if_neg hc, if_neg hc]
         rw [hrA, hrB]
-        exact S2.mono (ih qa .newBlocksOpened .newBlocksOpened lA lB h2.loose hl2 (.inl rfl) (HC.of_new rfl))
+        exact S2.mono (ih hb qa .newBlocksOpened .newBlocksOpened lA lB h2.loose hl2 (.inl rfl) (HC.of_new rfl))
           (fun _ _ _ _ hh => ⟨hh.1, fun _ => hh.2.1 rfl, hh.2.2.1, fun hc _ => hh.2.2.2 hc (.inl rfl)⟩)
   | done =>
     cases oB with
@@ -186,11 +187,11 @@ theorem openBlocksLoop_sim {src al} (ps : PS src al) (fr : Frames al) (ot : OT s
   intro fA
   induction fA with
   | zero =>
-    intro fB _ q result resultB lbA lbB k ls p sA sB _ _ _ _
+    intro fB _ hb q result resultB lbA lbB k ls p sA sB _ _ _ _
     unfold openBlocksLoop
     exact S2.errL rfl
   | succ fA ih =>
-    intro fB hle q result resultB lbA lbB k ls p sA sB h hl hres hcl
+    intro fB hle hb q result resultB lbA lbB k ls p sA sB h hl hres hcl
     obtain ⟨fB', rfl⟩ : ∃ f, fB = f + 1 := ⟨fB - 1, by omega⟩
     have ih' := ih fB' (by omega)
     -- the exit through `toContinuable` before any parser was tried
@@ -227,8 +228,8 @@ theorem openBlocksLoop_sim {src al} (ps : PS src al) (fr : Frames al) (ot : OT s
       · exact ⟨rfl, rfl, hab.opened, hab.tmpPara, hab.fence, hab.skipList, hab.emptyItemBlank⟩
       · exact ⟨rfl, rfl, hab.opened, hab.tmpPara, hab.fence, hab.skipList, hab.emptyItemBlank⟩
     · split
-      · exact ⟨ha.opened, ha.tmp, ha.fence, ha.u, ha.pk⟩
-      · exact ⟨ha.opened, ha.tmp, ha.fence, ha.u, ha.pk⟩
+      · exact ⟨ha.opened, ha.tmp, ha.fence, ha.u, ha.nk, ha.pk⟩
+      · exact ⟨ha.opened, ha.tmp, ha.fence, ha.u, ha.nk, ha.pk⟩
     · unfold modPc at e; cases e; simp only; split <;> rfl
     obtain ⟨h3, ho3'⟩ := hq
     have ho3 : sA3.pc.opened = sA.pc.opened := by rw [ho3', ho2, ho1]
@@ -255,10 +256,10 @@ theorem openBlocksLoop_sim {src al} (ps : PS src al) (fr : Frames al) (ot : OT s
       have hmem : d ∈ src := by
         obtain ⟨_, _, hb⟩ := idx_view_la hd
         exact List.mem_of_getElem? hb
-      exact obJp_sim ps fr ot ns bA bB cont ih' q w result resultB hl _ (tr.trig d hmem) h3 hres hcl3
+      exact obJp_sim ps fr ot ns bA bB cont hb ih' q w result resultB hl _ (tr.trig d hmem) h3 hres hcl3
         (fun _ => (free_mem_triggered d).1) (fun _ => ⟨(free_mem_triggered d).2, loA, hw⟩)
     · rw [if_neg hpl, if_neg hpl]
-      exact obJp_sim ps fr ot ns bA bB cont ih' q w result resultB hl _ tr.free h3 hres hcl3
+      exact obJp_sim ps fr ot ns bA bB cont hb ih' q w result resultB hl _ tr.free h3 hres hcl3
         (fun _ => by simp [freeParsers]) (fun _ => ⟨by simp [freeParsers], loA, hw⟩)
 
 theorem qp_length_ge_len (src : Bytes) : src.length ≤ (quotePrefix src).length := by
@@ -268,7 +269,7 @@ theorem qp_length_ge_len (src : Bytes) : src.length ≤ (quotePrefix src).length
 
 /-- parser.openBlocks, from states that may still disagree on BlockOffset / BlockIndent -/
 theorem openBlocks_sim {src al} (ps : PS src al) (fr : Frames al) (ot : OT src) (ns : NS src) (tr : TrigOK src al)
-    (bA bB : Bool) (q : Nat) {k ls p} {sA sB : St} (h : DRL src al k ls p sA sB) :
+    (bA bB : Bool) (hb : FL src → bB = bA) (q : Nat) {k ls p} {sA sB : St} (h : DRL src al k ls p sA sB) :
     S2 (fun a b sA' sB' => b = a ∧ (∃ p', DR src al k ls p' sA' sB') ∧
         (sA.pc.opened = [] → NBV src ls p → a = .newBlocksOpened))
       (openBlocks q bA sA) (openBlocks (q + 1) bB sB) := by
@@ -299,7 +300,7 @@ theorem openBlocks_sim {src al} (ps : PS src al) (fr : Frames al) (ot : OT src) 
     show S2 _ ((source >>= fun x => openBlocksLoop bA false (retryFuel x) q .noBlocksOpened none) sA)
       ((source >>= fun x => openBlocksLoop bB false (retryFuel x) (q + 1) .noBlocksOpened (some bqBlock)) sB)
     rw [bind_run esA, bind_run esB]
-    exact S2.mono (openBlocksLoop_sim ps fr ot ns tr bA bB false _ _ fuel q _ _ _ _ h (.inr hl) (.inl rfl)
+    exact S2.mono (openBlocksLoop_sim ps fr ot ns tr bA bB false _ _ fuel hb q _ _ _ _ h (.inr hl) (.inl rfl)
         (fun hc => by cases hc))
       (fun _ _ _ _ hh => ⟨hh.2.1 rfl, hh.2.2.1, fun _ hnb => hh.2.2.2 rfl (.inr ⟨rfl, hnb⟩)⟩)
   · rw [ea, eb] at hl ⊢
@@ -322,7 +323,7 @@ theorem openBlocks_sim {src al} (ps : PS src al) (fr : Frames al) (ot : OT src) 
       cases hy
       have hk := (h.a.pk x (List.mem_of_getLast? ea)).2
       exact bp_kind_paragraph (by rw [← hk]; simpa using hc)
-    exact S2.mono (openBlocksLoop_sim ps fr ot ns tr bA bB _ _ _ fuel q _ _ _ _ h (.inr hl) (.inl rfl) hcl)
+    exact S2.mono (openBlocksLoop_sim ps fr ot ns tr bA bB _ _ _ fuel hb q _ _ _ _ h (.inr hl) (.inl rfl) hcl)
       (fun _ _ _ _ hh => ⟨hh.2.1 rfl, hh.2.2.1, fun ho _ => by rw [ho] at ea; cases ea⟩)
 
 end GM.Blocks
